@@ -3,8 +3,9 @@ package main
 // genPolicyTable: the decisions tor.DialClient takes from crypto.Options (C08).  DialClient
 // needs a real TCP dial and cannot be driven by the harness, so its first choice of
 // handshake and its retry rule are tied to the source here: the Boolean expressions are
-// translated to Lean (`Gen/PolicyTable.lean`) and Props/C08 proves by enumeration that they
-// are the model's `dialFirst` / `dialRetry`.  Unknown shapes are emitted as `shapeOk := false`
+// translated to Lean (`Gen/PolicyTable.lean`) in a canonical form (ordered conjunct lists: nested
+// ifs and && are indistinguishable) and Props/C08 proves by enumeration that their meaning is
+// the model's `dialFirst` / `dialRetry`.  Unknown shapes are emitted as `shapeOk := false`
 // (fail-closed).
 
 import (
@@ -63,77 +64,225 @@ func boolExpr(e ast.Expr) (string, bool) {
 	return "false", false
 }
 
+// conjuncts flattens a condition into the ordered list of its conjuncts: parentheses are
+// dropped, `a && b` contributes the conjuncts of a then of b, `!!a` is a, `!(a || b)` is
+// `!a`, `!b`, a local defined once by a side-effect-free expression is replaced by its
+// definition.  Anything else (a disjunction, a negated conjunction) stays ONE conjunct,
+// translated by boolExpr; ok = false if even that fails (fail-closed).
+func conjuncts(e ast.Expr, locals map[string]ast.Expr) (out []string, ok bool) {
+	switch e := e.(type) {
+	case *ast.ParenExpr:
+		return conjuncts(e.X, locals)
+	case *ast.BinaryExpr:
+		if e.Op == token.LAND {
+			a, ok1 := conjuncts(e.X, locals)
+			b, ok2 := conjuncts(e.Y, locals)
+			return append(a, b...), ok1 && ok2
+		}
+	case *ast.UnaryExpr:
+		if e.Op == token.NOT {
+			x := e.X
+			for {
+				p, isP := x.(*ast.ParenExpr)
+				if !isP {
+					break
+				}
+				x = p.X
+			}
+			switch x := x.(type) {
+			case *ast.UnaryExpr:
+				if x.Op == token.NOT {
+					return conjuncts(x.X, locals)
+				}
+			case *ast.BinaryExpr:
+				if x.Op == token.LOR {
+					a, ok1 := conjuncts(&ast.UnaryExpr{Op: token.NOT, X: x.X}, locals)
+					b, ok2 := conjuncts(&ast.UnaryExpr{Op: token.NOT, X: x.Y}, locals)
+					return append(a, b...), ok1 && ok2
+				}
+			case *ast.Ident:
+				if d, isLocal := locals[x.Name]; isLocal {
+					return conjuncts(&ast.UnaryExpr{Op: token.NOT, X: &ast.ParenExpr{X: d}}, locals)
+				}
+			}
+		}
+	case *ast.Ident:
+		if d, isLocal := locals[e.Name]; isLocal {
+			return conjuncts(d, locals)
+		}
+	}
+	s, good := boolExprL(e, locals)
+	return []string{s}, good
+}
+
+// boolExprL is boolExpr with single-assignment locals replaced by their definitions.
+func boolExprL(e ast.Expr, locals map[string]ast.Expr) (string, bool) {
+	switch e := e.(type) {
+	case *ast.ParenExpr:
+		return boolExprL(e.X, locals)
+	case *ast.UnaryExpr:
+		if e.Op == token.NOT {
+			s, ok := boolExprL(e.X, locals)
+			return "(!" + s + ")", ok
+		}
+	case *ast.BinaryExpr:
+		a, ok1 := boolExprL(e.X, locals)
+		b, ok2 := boolExprL(e.Y, locals)
+		switch e.Op {
+		case token.LAND:
+			return "(" + a + " && " + b + ")", ok1 && ok2
+		case token.LOR:
+			return "(" + a + " || " + b + ")", ok1 && ok2
+		}
+	case *ast.Ident:
+		if d, isLocal := locals[e.Name]; isLocal {
+			return boolExprL(d, locals)
+		}
+	}
+	return boolExpr(e)
+}
+
+// singleAssignmentLocals: `x := <expr>` where x is never assigned again nor has its address
+// taken in the function and <expr> is a pure Boolean expression over the options.
+func singleAssignmentLocals(fd *ast.FuncDecl) map[string]ast.Expr {
+	defs := map[string]ast.Expr{}
+	writes := map[string]int{}
+	ast.Inspect(fd.Body, func(n ast.Node) bool {
+		switch s := n.(type) {
+		case *ast.AssignStmt:
+			for i, l := range s.Lhs {
+				if id, ok := l.(*ast.Ident); ok {
+					writes[id.Name]++
+					if s.Tok == token.DEFINE && len(s.Lhs) == len(s.Rhs) {
+						defs[id.Name] = s.Rhs[i]
+					}
+				}
+			}
+		case *ast.IncDecStmt:
+			if id, ok := s.X.(*ast.Ident); ok {
+				writes[id.Name]++
+			}
+		case *ast.UnaryExpr:
+			if s.Op == token.AND {
+				if id, ok := s.X.(*ast.Ident); ok {
+					writes[id.Name] += 2
+				}
+			}
+		}
+		return true
+	})
+	out := map[string]ast.Expr{}
+	for name, d := range defs {
+		if writes[name] != 1 || name == "cryptoHandshake" {
+			continue
+		}
+		if _, ok := boolExpr(d); ok {
+			out[name] = d
+		}
+	}
+	return out
+}
+
+type dialRow struct {
+	conj []string
+	val  string
+}
+
+// walkRetry collects, for every `cryptoHandshake = V; goto again` below stmts, the ordered
+// conjuncts of all the `if` conditions that dominate it (nesting and && are the same thing).
+func walkRetry(stmts []ast.Stmt, conj []string, locals map[string]ast.Expr, rows *[]dialRow, ok *bool) {
+	for i := 0; i < len(stmts); i++ {
+		switch st := stmts[i].(type) {
+		case *ast.IfStmt:
+			if st.Else != nil || st.Init != nil {
+				*ok = false
+				continue
+			}
+			cs, good := conjuncts(st.Cond, locals)
+			if !good {
+				*ok = false
+			}
+			walkRetry(st.Body.List, append(append([]string(nil), conj...), cs...), locals, rows, ok)
+		case *ast.AssignStmt:
+			// must be `cryptoHandshake = V` immediately followed by `goto again`
+			if st.Tok != token.ASSIGN || len(st.Lhs) != 1 || src(st.Lhs[0]) != "cryptoHandshake" || i+1 >= len(stmts) {
+				*ok = false
+				continue
+			}
+			br, isBr := stmts[i+1].(*ast.BranchStmt)
+			if !isBr || br.Tok != token.GOTO {
+				*ok = false
+				continue
+			}
+			v, good := boolExprL(st.Rhs[0], locals)
+			if !good {
+				*ok = false
+			}
+			*rows = append(*rows, dialRow{append([]string(nil), conj...), v})
+			i++
+		case *ast.EmptyStmt:
+		default:
+			*ok = false
+		}
+	}
+}
+
 func genPolicyTable() {
 	f := parse("tor/initial.go")
 	fd := findFunc(f, "DialClient")
 	ok := fd != nil
-	first, firstPos := "false", "?"
+	var first []string
 	guard := ""
-	type step struct{ outer, inner, val, pos string }
-	var steps []step
+	seenFirst := false
+	var rows []dialRow
 	if ok {
+		locals := singleAssignmentLocals(fd)
 		ast.Inspect(fd.Body, func(n ast.Node) bool {
 			switch s := n.(type) {
 			case *ast.AssignStmt:
 				if s.Tok == token.DEFINE && len(s.Lhs) == 1 && len(s.Rhs) == 1 {
 					if id, isId := s.Lhs[0].(*ast.Ident); isId && id.Name == "cryptoHandshake" {
-						e, good := boolExpr(s.Rhs[0])
-						first, firstPos = e, pos(s)
+						cs, good := conjuncts(s.Rhs[0], locals)
+						first, seenFirst = cs, true
 						ok = ok && good
 					}
 				}
 			case *ast.IfStmt:
 				c := src(s.Cond)
 				if strings.Contains(c, "ErrBadHandshake") {
-					guard = c
-					// body: a list of `if OUTER { if INNER { cryptoHandshake = V; goto again } }`
-					for _, st := range s.Body.List {
-						o, isIf := st.(*ast.IfStmt)
-						if !isIf || o.Else != nil || o.Init != nil || len(o.Body.List) != 1 {
-							ok = false
-							continue
-						}
-						in, isIf := o.Body.List[0].(*ast.IfStmt)
-						if !isIf || in.Else != nil || in.Init != nil || len(in.Body.List) != 2 {
-							ok = false
-							continue
-						}
-						as, isAs := in.Body.List[0].(*ast.AssignStmt)
-						br, isBr := in.Body.List[1].(*ast.BranchStmt)
-						if !isAs || !isBr || br.Tok != token.GOTO || as.Tok != token.ASSIGN || len(as.Lhs) != 1 || src(as.Lhs[0]) != "cryptoHandshake" {
-							ok = false
-							continue
-						}
-						oe, g1 := boolExpr(o.Cond)
-						ie, g2 := boolExpr(in.Cond)
-						ve, g3 := boolExpr(as.Rhs[0])
-						ok = ok && g1 && g2 && g3
-						steps = append(steps, step{oe, ie, ve, pos(o)})
+					guard = strings.Join(strings.Fields(c), " ")
+					if s.Else != nil || s.Init != nil {
+						ok = false
 					}
+					walkRetry(s.Body.List, nil, locals, &rows, &ok)
 					return false
 				}
 			}
 			return true
 		})
 	}
-	if guard == "" || firstPos == "?" {
+	if guard == "" || !seenFirst {
 		ok = false
 	}
+	list := func(cs []string) string { return "[" + strings.Join(cs, ", ") + "]" }
 	var b strings.Builder
 	b.WriteString("import Storrent.Model.CryptoPolicy\n")
 	b.WriteString("-- GENERATED by harness/cmd/extract from tor/initial.go (DialClient); do not edit\n")
+	b.WriteString("-- Canonical form: every condition is the ordered list of its conjuncts; nested `if`s and\n")
+	b.WriteString("-- `&&` contribute alike (no line numbers: comment-only edits leave the table unchanged).\n")
 	b.WriteString("namespace Storrent.Gen\nopen Storrent.Policy\n")
 	fmt.Fprintf(&b, "/-- every shape was recognised -/\ndef dialShapeOk : Bool := %v\n", ok)
-	fmt.Fprintf(&b, "/-- %s: `cryptoHandshake := …` -/\ndef dialFirstExpr (o : Options) : Bool := %s\n", firstPos, first)
+	fmt.Fprintf(&b, "/-- `cryptoHandshake := …`: its conjuncts -/\ndef dialFirstConj (o : Options) : List Bool := %s\n", list(first))
 	fmt.Fprintf(&b, "/-- the condition under which DialClient retries at all -/\ndef dialRetryGuard : String := %s\n", leanStr(guard))
-	b.WriteString("/-- `if OUTER { if INNER { cryptoHandshake = V; goto again } }`, in order; `ch` = cryptoHandshake -/\n")
-	b.WriteString("def dialRetrySteps (o : Options) (ch : Bool) : List (Bool × Bool × Bool) := [\n")
-	for i, s := range steps {
+	b.WriteString("/-- one row per `cryptoHandshake = V; goto again`, in source order: the conjuncts of all the\n")
+	b.WriteString("    conditions dominating it inside the retry block, and V; `ch` = cryptoHandshake -/\n")
+	b.WriteString("def dialRetryRows (o : Options) (ch : Bool) : List (List Bool × Bool) := [\n")
+	for i, r := range rows {
 		sep := ","
-		if i == len(steps)-1 {
+		if i == len(rows)-1 {
 			sep = ""
 		}
-		fmt.Fprintf(&b, "  (%s, %s, %s)%s  -- %s\n", s.outer, s.inner, s.val, sep, s.pos)
+		fmt.Fprintf(&b, "  (%s, %s)%s\n", list(r.conj), r.val, sep)
 	}
 	b.WriteString("]\nend Storrent.Gen\n")
 	writeIfChanged("PolicyTable.lean", b.String())
